@@ -51,6 +51,10 @@ pub fn run_c05(o: &mut Out, tier: &str, seed: u64) {
     for it in 0..n {
         let s = shapes(&mut r, it, 100); let tx = gen::tx_of(&mut r, &s); let b = serialize(&tx);
         let res = o.op(format!("c05_txid {}", hex(&b)), true);
+        // the identifier of the DESCRIBED transaction (struct built field by field, never through the library's serialiser)
+        // against the by-the-book bytes and id formula of Spec/Wire: an encoder slip cannot hide behind its own output
+        if it % 3 == 0 || s.rct == RctType::Full { o.stat("id.described"); o.op(format!("c03_tx {}", desc::tx_desc(&tx)), true); }
+        o.direct(res != "err", "C05: the serialisation of a generated well-formed transaction parses (so that its id is defined by its bytes)", format!("c05_txid {}", trunc(&hex(&b), 400)), res.clone(), "ok …".into());
         o.stat(&format!("id.v{}.rct{}.{}", s.version, if s.version == 1 || s.nin == 0 { -1 } else { gen::rct_num(s.rct) as i32 }, res.split(' ').next().unwrap()));
         // mutated encodings that still parse: the id must follow the bytes
         for _ in 0..3 { let m = gen::mutate(&mut r, &b); let res = o.op(format!("c05_txid {}", hex(&m)), false); if res != "err" { o.nontrivial.insert(hex(&m)); o.stat("id.mutated.ok"); } else { o.stat("id.mutated.err"); } }
